@@ -45,13 +45,38 @@ func hostTexts(hs []*rules.HostRule) []string {
 // snapDNS is the canonical snapshot of a DNS result: rule texts as sorted
 // multisets, flags, and the derived rewrites.
 func snapDNS(res *urlfilter.DNSResult, matched bool) string {
-	return fmt.Sprintf("matched=%v basic=%q all=%q v4=%q v6=%q rewritesAll=%q rewrites=%q", matched, ruleText(res.NetworkRule),
+	// the fields are read before any derived-result method runs, and again afterwards
+	fields := func() string {
+		return fmt.Sprintf("%q|%q|%q|%q", ruleText(res.NetworkRule), netTexts(res.NetworkRules), hostTexts(res.HostRulesV4), hostTexts(res.HostRulesV6))
+	}
+	before := fields()
+	_, _ = res.DNSRewritesAll(), res.DNSRewrites()
+	_ = rules.GetDNSBasicRule(res.NetworkRules)
+	mutated := ""
+	if after := fields(); after != before {
+		mutated = fmt.Sprintf(" %s(before=%s after=%s)", getterMutatedMarker, before, after)
+	}
+	return mutated + fmt.Sprintf("matched=%v basic=%q all=%q v4=%q v6=%q rewritesAll=%q rewrites=%q", matched, ruleText(res.NetworkRule),
 		sortedList(netTexts(res.NetworkRules)), sortedList(hostTexts(res.HostRulesV4)), sortedList(hostTexts(res.HostRulesV6)),
 		sortedList(netTexts(res.DNSRewritesAll())), sortedList(netTexts(res.DNSRewrites())))
 }
 
+// getterMutatedMarker appears in a snapshot when calling the derived-result
+// methods changed the result object itself.
+const getterMutatedMarker = "GETTER-MUTATED-RESULT"
+
 func snapWeb(mr *rules.MatchingResult) string {
-	return fmt.Sprintf("basicrule=%q document=%q stealth=%q result=%q option=%d", ruleText(mr.BasicRule), ruleText(mr.DocumentRule), ruleText(mr.StealthRule),
+	fields := func() string {
+		return fmt.Sprintf("%q|%q|%q|%d|%d|%d|option=%d", ruleText(mr.BasicRule), ruleText(mr.DocumentRule), ruleText(mr.StealthRule),
+			len(mr.CspRules), len(mr.CookieRules), len(mr.ReplaceRules), mr.GetCosmeticOption())
+	}
+	before := fields()
+	_ = mr.GetBasicResult()
+	mutated := ""
+	if after := fields(); after != before {
+		mutated = fmt.Sprintf(" %s(before=%s after=%s)", getterMutatedMarker, before, after)
+	}
+	return mutated + fmt.Sprintf("basicrule=%q document=%q stealth=%q result=%q option=%d", ruleText(mr.BasicRule), ruleText(mr.DocumentRule), ruleText(mr.StealthRule),
 		ruleText(mr.GetBasicResult()), mr.GetCosmeticOption())
 }
 
@@ -138,6 +163,8 @@ func genMixedLists(t *rapid.T, fileChance int) (lists []ListSpec, models []NetMo
 		{Pat: "||example.org^", DPerm: []string{"a.com"}},
 		{Pat: "||example.org^", Exc: true, CPerm: []Cli{{"cidr", "10.0.0.0/8"}}, Extra: []string{"important"}},
 		{Pat: "example", GRestr: []string{"pc"}, Deny: []string{"b.net"}},
+		{Pat: "||a.com^", Exc: true, Extra: []string{"document"}},
+		{Pat: "||b.net^", Exc: true, Extra: []string{"genericblock"}},
 	}
 	for _, m := range sensitive {
 		models = append(models, m)
@@ -157,7 +184,10 @@ func genFieldToggleQueries(t *rapid.T) []Q {
 	var out []Q
 	for i := rapid.IntRange(2, 6).Draw(t, "ntoggles"); i > 0; i-- {
 		q := base
-		switch rapid.IntRange(0, 5).Draw(t, "toggle") {
+		switch rapid.IntRange(0, 6).Draw(t, "toggle") {
+		case 6:
+			// matched by no rule itself; only the referrer matches (a document-level exception)
+			q = Q{URL: "http://nomatch.invalid/frame", Src: pick(t, "docsrc", []string{"http://a.com/", "http://b.net/"}), Typ: "subdocument"}
 		case 0:
 			q.CIP = pick(t, "tip", []string{"1.2.3.4", "10.0.0.1", "9.9.9.9"})
 		case 1:
